@@ -34,8 +34,12 @@ class KademliaDatagramBase:
         self.packet_type = packet_type
         if self.expected_packet_type != packet_type:
             raise ValueError(f"invalid packet type: {packet_type}, expected {self.expected_packet_type}")
+        if not isinstance(rpc_id, bytes):
+            raise ValueError(f"invalid rpc node_id: {type(rpc_id).__name__} (expected bytes)")
         if len(rpc_id) != constants.RPC_ID_LENGTH:
             raise ValueError(f"invalid rpc node_id: {len(rpc_id)} bytes (expected 20)")
+        if not isinstance(node_id, bytes):
+            raise ValueError(f"invalid node node_id: {type(node_id).__name__} (expected bytes)")
         if not len(node_id) == constants.HASH_LENGTH:
             raise ValueError(f"invalid node node_id: {len(node_id)} bytes (expected 48)")
         self.rpc_id = rpc_id
